@@ -103,7 +103,7 @@ func extractHead(toks []htmlTok) headFacts {
 }
 
 func runC11(res *Result, tier string, seed int64, replay string) {
-	res.Rule = "documents = seeded grammar documents biased to unusual explicit column widths (percent with decimals, pixels), groups with pixel / percentage / default widths, web fonts on every font-bearing component (stacks naming several mapped fonts, mj-font declarations, used and unused; declared names that contain, are contained in, or differ in case from a built-in family the body uses), feature components (accordion, navbar with and without hamburger, carousel, fluid-on-mobile images) + every fixture; the real output is tokenised by the Lean lexer with attribute parsing (driver `tags`); oracle: (a) every mj-column-per/px class on a body element has a rule in BOTH head blocks whose width is the one the class name encodes, and every rule is used; (b) accordion / navbar / carousel / fluid-image head CSS present exactly when such a component is rendered, carousel ids in head = ids in body; (c) every mapped web font or mj-font a body font-family stack resolves to is imported, no unreferenced built-in font is imported. Non-trivial = document with ≥2 distinct column classes or ≥1 feature component; distinct by source"
+	res.Rule = "documents = seeded grammar documents biased to unusual explicit column widths (percent with decimals, pixels), groups with pixel / percentage / default widths, web fonts on every font-bearing component (stacks naming several mapped fonts, mj-font declarations, used and unused, also named only by author HTML / an mj-class / an inline mj-style rule; declared names that contain, are contained in, or differ in case from a built-in family the body uses), feature components (accordion, navbar with and without hamburger, carousel, fluid-on-mobile images) + every fixture; the real output is tokenised by the Lean lexer with attribute parsing (driver `tags`); oracle: (a) every mj-column-per/px class on a body element has a rule in BOTH head blocks whose width is the one the class name encodes, and every rule is used; (b) accordion / navbar / carousel / fluid-image head CSS present exactly when such a component is rendered, carousel ids in head = ids in body; (c) every mapped web font or mj-font a body font-family stack resolves to is imported, no unreferenced built-in font is imported. Non-trivial = document with ≥2 distinct column classes or ≥1 feature component; distinct by source"
 	drv, err := startDriverPool(8)
 	if err != nil {
 		res.Disagree(Violation{Sig: "driver-missing", What: err.Error()})
@@ -238,6 +238,20 @@ func runC11(res *Result, tier string, seed int64, replay string) {
 					docs = append(docs, doc{fmt.Sprintf("mj-font-google/%d/%d/%d", bi, di, ui), `<mjml><mj-head><mj-font name="` + decl + `" href="` + href + `"/></mj-head><mj-body><mj-section><mj-column>` + body + `</mj-column></mj-section></mj-body></mjml>`})
 				}
 			}
+		}
+		// a declared family that no component attribute names: only author HTML (a style attribute inside mj-text / mj-button /
+		// mj-table / mj-raw), an mj-class, the mj-all default or an inline mj-style rule brings it into the body's inline styles
+		for ui, body := range []string{
+			`<mj-text>plain <span style="font-family: Decl Sans, serif">styled</span></mj-text>`,
+			`<mj-raw><table><tr><td style="font-family:Decl Sans">raw cell</td></tr></table></mj-raw><mj-text>t</mj-text>`,
+			`<mj-button href="u"><b style="font-family:'Decl Sans'">go</b></mj-button>`,
+			`<mj-table><tr><td style="font-family:Decl Sans, Arial">c</td></tr></mj-table>`,
+			`<mj-text css-class="dk">by inline rule</mj-text>`,
+			`<mj-text><p class="dk">author element with an inline rule</p></mj-text>`,
+			`<mj-text mj-class="dc">by class</mj-text>`,
+		} {
+			head := `<mj-font name="Decl Sans" href="https://f.example/decl.css"/><mj-attributes><mj-class name="dc" font-family="Decl Sans, serif"/></mj-attributes><mj-style inline="inline">.dk { font-family: Decl Sans, sans-serif; }</mj-style>`
+			docs = append(docs, doc{fmt.Sprintf("mj-font-indirect/%d", ui), `<mjml><mj-head>` + head + `</mj-head><mj-body><mj-section><mj-column>` + body + `</mj-column></mj-section></mj-body></mjml>`})
 		}
 		// an mj-font that restates a built-in font's own URL, with other built-in fonts used before and after it in the body (the
 		// default Ubuntu stack of text / button, a font on a navbar link only): every one of them must still be imported
